@@ -25,6 +25,12 @@ pub trait Grp: Copy + PartialEq + Add<Output = Self> + Sub<Output = Self> + Neg<
     fn dec(bytes: &[u8], fmt: &str) -> Option<Self>;
     /// the order-3 endomorphism (x, y) -> (w x, y), w a primitive cube root of unity of Fq, applied to the representative as it is
     fn endo(&self) -> Self;
+    /// a representative of self whose raw coordinate `which` (0 x, 1 y, 2 z) equals the same raw coordinate of `other`
+    fn share_coord(&self, other: &Self, which: usize) -> Option<Self>;
+    /// (x, y, -z): the opposite point sharing both raw x and y
+    fn flip_z(&self) -> Self;
+    /// a representative whose raw y is +-1/2 (the first doubling then returns z3 = +-z), when one exists
+    fn half_y(&self, neg: bool) -> Option<Self>;
 }
 
 /// a primitive cube root of unity of Fq: (-1 + sqrt(-3)) / 2
@@ -68,6 +74,14 @@ impl Grp for G1 {
     fn endo(&self) -> Self {
         G1::new(self.x() * cube_root_of_unity(), self.y(), self.z())
     }
+    fn share_coord(&self, other: &Self, which: usize) -> Option<Self> {
+        g1_coord(*self, which, [other.x(), other.y(), other.z()][which.min(2)])
+    }
+    fn flip_z(&self) -> Self { G1::new(self.x(), self.y(), -self.z()) }
+    fn half_y(&self, neg: bool) -> Option<Self> {
+        let h = (Fq::one() + Fq::one()).inverse()?;
+        g1_coord(*self, 1, if neg { -h } else { h })
+    }
 }
 
 impl Grp for G2 {
@@ -104,6 +118,14 @@ impl Grp for G2 {
     }
     fn endo(&self) -> Self {
         G2::new(self.x() * Fq2::new(cube_root_of_unity(), Fq::zero()), self.y(), self.z())
+    }
+    fn share_coord(&self, other: &Self, which: usize) -> Option<Self> {
+        g2_coord(*self, which, [other.x(), other.y(), other.z()][which.min(2)])
+    }
+    fn flip_z(&self) -> Self { G2::new(self.x(), self.y(), -self.z()) }
+    fn half_y(&self, neg: bool) -> Option<Self> {
+        let h = (Fq::one() + Fq::one()).inverse()?;
+        g2_coord(*self, 1, Fq2::new(if neg { -h } else { h }, Fq::zero()))
     }
 }
 
